@@ -1,0 +1,10 @@
+//go:build verif
+
+package argon2
+
+import "reflect"
+
+// VerifSchemeType returns the struct type driven by the hash codec.
+func VerifSchemeType() reflect.Type { return reflect.TypeOf(scheme{}) }
+
+const VerifKeyLen = keyLen
